@@ -381,6 +381,57 @@ def run(ctx):
             rt.violate(key, "an attempt list is filled without passing `prepare(pos)` (guard: %s): attempts of an earlier position may be reported at a later one" % (g or "none"), loc)
     rt.require(10, "decision functions")
 
+    # ---- special errors are recorded exactly where their condition holds
+    rsp = ctx.rule("R10-SPECIAL", "a special error is recorded only where it is true: `empty_stack` directly in the failure branch of a stack peek / pop, "
+                   "`out_of_bound` directly in the None branch of constrain_idxs, `repeat_too_many_times` nowhere on a path that matched")
+    STACK_READS = ("peek", "pop")
+
+    def walk_special(t, ctx_path, found):
+        tag = t[0]
+        if tag == "ev":
+            lab = t[2][0]
+            if lab in ("empty_stack", "out_of_bound", "repeat_too_many_times"):
+                found.append((lab, ctx_path[-1] if ctx_path else None))
+            walk_special(t[3], ctx_path + [("after", lab)], found)
+        elif tag == "fork":
+            lab = t[2][0]
+            walk_special(t[3], ctx_path + [("ok", lab)], found)
+            walk_special(t[4], ctx_path + [("fail", lab)], found)
+        elif tag == "opq":
+            cond = repr(t[1])
+            for arm, sub in t[2]:
+                walk_special(sub, ctx_path + [("arm:" + str(arm), cond)], found)
+        elif tag == "loop":
+            walk_special(t[4], ctx_path + [("loop", "")], found)
+            walk_special(t[5], ctx_path + [("afterloop", "")], found)
+        elif tag == "unm":
+            walk_special(t[2], ctx_path, found)
+    n_special = 0
+    for key, pid, cid, loc, im in world.twin_pairs():
+        for fid, mode in ((pid, "parse"), (cid, "check")):
+            try:
+                t = world.tree(fid)
+            except edt.Unsupported:
+                continue
+            found = []
+            walk_special(t, [], found)
+            for lab, parent in found:
+                n_special += 1
+                k2 = "%s [%s] %s" % (key, mode, lab)
+                okp = False
+                if lab == "empty_stack":
+                    okp = parent is not None and parent[0] == "fail" and parent[1] in STACK_READS
+                elif lab == "out_of_bound":
+                    okp = parent is not None and parent[0].startswith("arm:") and "constrain_idxs" in parent[1] and parent[0][4:].lower() in ("none", "_", "false")
+                elif lab == "repeat_too_many_times":
+                    okp = parent is not None and parent[0] in ("ok", "after", "afterloop", "arm:true", "arm:false")
+                if okp:
+                    rsp.inst(k2, loc, "ok", {"recorded under": "%s of %s" % (parent[0], parent[1][:80])})
+                else:
+                    rsp.violate(k2, "`%s` is recorded %s: the report would state it although it need not be true there" % (
+                        lab, ("under %s of %s" % (parent[0], parent[1][:120])) if parent else "unconditionally"), loc, edt.fmt(t))
+    rsp.require(10, "recording sites")
+
     # ---- polarity & wrap on EDTs
     rp = ctx.rule("R10-POLARITY", "positive look-ahead runs its operand under polarity true, negative look-ahead under polarity false")
     rw = ctx.rule("R10-WRAP", "both twins of every non-silent rule wrap the inner match in a recording scope at the rule's start with its own RULE; silent rules do not")
